@@ -764,6 +764,41 @@ def main():
         with open(path) as f:
             data = json.load(f)
         rep = data.get('replay', data)
+        if 'scenario' not in rep:
+            problems = []
+            if rep.get('entry_point') == 'bardolph.controller.run.main':
+                _res, problems = main_thread_run(sched.ReplayChooser(rep['schedule'], strict=False), rep['files'])
+            elif rep.get('entry_point') == 'bardolph.controller.ls_module.queue_script':
+                _res, problems = entry_point_run(sched.ReplayChooser(rep['schedule'], strict=False),
+                                                 rep['clients'], rep['scripts_per_client'])
+            elif rep.get('kind') == 'command-line':
+                import shutil
+                import subprocess
+                import tempfile
+                from core import REPO
+                scratch = tempfile.mkdtemp(prefix='c08_cli_')
+                try:
+                    for name, text in rep['files'].items():
+                        with open(os.path.join(scratch, name), 'w') as f:
+                            f.write(text + '\n')
+                    code = ('import sys; sys.argv = ["lsrun"] + {!r}; '
+                            'from bardolph.controller import run; run.main()').format(rep['arguments'])
+                    r = subprocess.run([sys.executable, '-W', 'ignore', '-c', code], cwd=scratch,
+                                       capture_output=True, text=True, timeout=60,
+                                       env=dict(os.environ, PYTHONPATH=REPO))
+                    if r.stdout.split() != rep['expected'] or 'Traceback' in r.stderr:
+                        problems.append(('not-in-order-exactly-once:command-line',
+                                         'printed {} ; expected {} ; stderr ends {!r}'.format(
+                                             r.stdout.split(), rep['expected'], r.stderr.strip()[-120:])))
+                finally:
+                    shutil.rmtree(scratch, ignore_errors=True)
+            else:
+                print('this replay is re-run by the full check')
+                sys.exit(2)
+            for sig, text in problems:
+                print('VIOLATION property=C08 replay={} [{}] {}'.format(path, sig, text))
+            print('replayed: {} problem(s)'.format(len(problems)))
+            sys.exit(1 if problems else 0)
         scn = scn_from_json(rep['scenario'])
         run = run_case(jc_mod, scn, sched.ReplayChooser(rep['schedule'], strict=False))
         for sig, text in run.problems:
